@@ -1,7 +1,7 @@
 (* Props/C18.v — the property theorems of C18 and nothing else.
    C18: the net/http middleware blocks completely and otherwise passes traffic through intact.
    All statements are about Http.wrap_handler (the function CorrC18.ok evaluates), quantified over
-   every configuration and rule oracle (cfg), every request body, every list of handler
+   every configuration, rule oracle and ctl effect per phase (cfg), every request body, every list of handler
    operations; sk = true is net/http's ResponseWriter, sk = false httptest.ResponseRecorder. *)
 From Verif Require Import Base Http HttpProofs.
 
@@ -19,12 +19,12 @@ Proof. exact request_block_holds. Qed.
 Print Assumptions C18_request_block.
 
 (* exactly when: a phase-1 rule, the body limit with Reject (at or above the limit), or a phase-2
-   rule on the buffered prefix *)
+   rule on the buffered prefix; access and limit are the ones in force after the phase-1 ctl actions *)
 Theorem C18_request_block_iff : forall cfg body,
   (exists it, mw_request cfg body = RBlocked it) <->
   (rule_intr cfg (c_ph1 cfg) <> None \/
-   (c_req_access cfg = true /\ c_req_limit cfg <= blen body /\ eff_action cfg (c_req_action cfg) = Reject) \/
-   rule_intr cfg (c_ph2 cfg (if c_req_access cfg then takeN (c_req_limit cfg) body else [])) <> None).
+   (eff_qacc cfg = true /\ eff_qlim cfg <= blen body /\ eff_action cfg (c_req_action cfg) = Reject) \/
+   rule_intr cfg (c_ph2 cfg (if eff_qacc cfg then takeN (eff_qlim cfg) body else [])) <> None).
 Proof. exact request_blocked_iff. Qed.
 Print Assumptions C18_request_block_iff.
 
@@ -35,6 +35,25 @@ Theorem C18_response_block : forall cfg sk body ops,
   r_invoked r = true -> r_intr r <> None -> cl_body (client_of sk (r_ds r)) = [].
 Proof. exact response_block_wrap. Qed.
 Print Assumptions C18_response_block.
+
+(* the decision to buffer the response body is taken after the phase-3 rules ran (their ctl actions
+   responseBodyAccess / forceResponseBodyVariable count): flushing is allowed exactly when the
+   transaction will not buffer, and a buffered Write reaches no writer *)
+Theorem C18_buffering_after_phase3 : forall cfg sk c m,
+  i_wrote (m_ic m) = false -> i_allow (m_ic m) = false ->
+  let m' := ic_write_header cfg sk c m in
+  t_intr (m_tx m') = None ->
+  m_tx m' = tx_resp_headers cfg c (d_live (m_ds m)) (m_tx m) /\
+  i_allow (m_ic m') = negb (buffering cfg (m_tx m')).
+Proof. exact buffering_after_phase3_holds. Qed.
+Print Assumptions C18_buffering_after_phase3.
+
+Theorem C18_buffered_write_reaches_no_writer : forall cfg sk b m,
+  t_intr (m_tx m) = None -> i_wrote (m_ic m) = true -> i_released (m_ic m) = false ->
+  buffering cfg (m_tx m) = true -> blen (t_rbuf (m_tx m)) + blen b < t_rlim (m_tx m) ->
+  m_ds (ic_write cfg sk b m) = m_ds m /\ t_rbuf (m_tx (ic_write cfg sk b m)) = t_rbuf (m_tx m) ++ b.
+Proof. exact buffered_write_reaches_no_writer. Qed.
+Print Assumptions C18_buffered_write_reaches_no_writer.
 
 (* (partial: guards no_late_headers, no_status_after_info, no_own_cl; HttpProofs.passthrough_guard_example
    is a non-trivial instance; the excluded shapes are the _refuted witnesses below)
